@@ -11,7 +11,7 @@ from fractions import Fraction as Q
 
 import alg
 from alg import Expr, ZERO, ONE, as_expr
-from front import AnalysisError
+from front import AnalysisError, dotted_name
 import interp as I_
 from interp import Arr, SymArr, Tup, Unknown, BOT, Opaque, FuncRef, ModRef, Pred, BoolCombo, Member, SliceV, RangeV, LevelStore, PyList, SetV, GenList
 
@@ -453,6 +453,8 @@ def load(I, arr, idx, node, env):
                     val = val.subs({ua: req.val})
                     if "lvl0" in meta and isinstance(meta["lvl0"], Expr):
                         meta["lvl0"] = meta["lvl0"].subs({ua: req.val})
+            elif isinstance(val, Expr) and it.meta.get("invperm_of") is not None and isinstance(it.meta["invperm_of"].val, Expr):
+                val = alg.fn("scatter", val, it.meta["invperm_of"].val)  # x[inv(p)] is x scattered through p
             elif isinstance(val, Expr) and (not isinstance(arr, SymArr) or arr.ndim == 1):
                 val = alg.fn("gather", val, it.val if isinstance(it.val, Expr) else alg.sym("?"))
             axis += 1
@@ -485,6 +487,18 @@ def store(I, arr, idx, v, node, env):
         I.event("unsupported", node, "store into array of unknown shape")
         return None
     items = _expand_index(I, arr, idx, node)
+    ro = arr.meta.get("roll_of")
+    if ro is not None and arr.ndim == 1 and len(items) == 1 and isinstance(val_of(v), Expr) and val_of(v).is_zero():
+        it = items[0]
+        first = (isinstance(it, Expr) and const_int(it) == 0) or (isinstance(it, SliceV) and it.lo is None and const_int(it.hi) == 1 and it.step is None)
+        src, shift = ro
+        cs = _single_atom(src.val) if isinstance(src.val, Expr) else None
+        if first and const_int(shift) == 1 and cs is not None and cs.kind == "fn" and cs.name == "cumsum":
+            # inclusive prefix sums rolled right by one with the wrapped-around entry reset: the exclusive prefix sums
+            new = arr.copy()
+            new.meta = {k: x for k, x in arr.meta.items() if k != "roll_of"}
+            new.val = src.val - cs.args[0]
+            return new
     gax = grid_axes(arr)
     region = []
     axis = 0
@@ -576,8 +590,13 @@ def store(I, arr, idx, v, node, env):
             new.val = alg.fn("upd", new.val if isinstance(new.val, Expr) else alg.sym("?"), sv if isinstance(sv, Expr) else alg.sym("?")) if isinstance(new.val, Expr) else new.val
     elif level[0] == "scatter":
         ix = level[1]
-        new.val = alg.fn("scatter", sv, ix.val) if isinstance(sv, Expr) and isinstance(ix.val, Expr) else Unknown("scatter")
-        new.meta["scatter"] = ix
+        ar = v.meta.get("arange") if isinstance(v, Arr) else None
+        if ar is not None and ar[0].is_zero() and ar[2].eq(ONE) and isinstance(ix.val, Expr) and ix.meta.get("perm") is not None:
+            new.val = alg.fn("invperm", ix.val)  # rank[p] = arange: the inverse permutation
+            new.meta["invperm_of"] = ix
+        else:
+            new.val = alg.fn("scatter", sv, ix.val) if isinstance(sv, Expr) and isinstance(ix.val, Expr) else Unknown("scatter")
+            new.meta["scatter"] = ix
     elif level[0] == "partial" and arr.ndim == 1 and isinstance(new.val, Expr) and new.val.is_zero() and const_int(level[1].lo) == 1 and level[1].hi is None and isinstance(v, Arr) and "gen" in v.meta and "slice1d" not in v.meta:
         g = v.meta["gen"]
         # element 0 stays zero, element k>0 is g(k-1); for prefix sums g(k-1) = sum_{j<k}, which is 0 at k = 0 as well
@@ -714,7 +733,42 @@ def method(I, f, args, kwargs, node):
                 return Tup([v for _, v in b.items], "list")
             return Tup([Tup([k, v]) for k, v in b.items], "list")
         if name == "pop":
+            if b.kind == "dict":
+                if not args:
+                    return Unknown("dict.pop()")
+                for i, (k, v) in enumerate(b.items):
+                    if I_.key_equal(k, args[0]):
+                        del b.items[i]
+                        return v
+                if len(args) > 1:
+                    return args[1]
+                return Unknown("KeyError %r" % (args[0],))
+            if any(isinstance(x, I_.GenList) for x in b.items):
+                return Unknown("pop from a generated list")
+            if args:
+                k = const_int(args[0]) if isinstance(args[0], Expr) else None
+                if k is None or not (-len(b.items) <= k < len(b.items)):
+                    return Unknown("pop(%r)" % (args[0],))
+                return b.items.pop(k)
             return b.items.pop() if b.items else Unknown("pop")
+        if name == "clear":
+            del b.items[:]
+            return None
+        if name == "update" and b.kind == "dict" and args and isinstance(args[0], Tup) and args[0].kind == "dict":
+            for k, v in args[0].items:
+                for i, (k0, _) in enumerate(b.items):
+                    if I_.key_equal(k0, k):
+                        b.items[i] = (k, v)
+                        break
+                else:
+                    b.items.append((k, v))
+            return None
+        if name == "setdefault" and b.kind == "dict" and args:
+            for k, v in b.items:
+                if I_.key_equal(k, args[0]):
+                    return v
+            b.items.append((args[0], args[1] if len(args) > 1 else None))
+            return b.items[-1][1]
         return Unknown("tuple method %s" % name)
     if isinstance(b, SetV):
         if name == "pop":
@@ -732,7 +786,8 @@ def method(I, f, args, kwargs, node):
             for n in c.body:
                 if isinstance(n, ast.FunctionDef) and n.name == name:
                     fr = FuncRef("pkg", m.name + "." + c.name + "." + name, m, n)
-                    return I.call_package(fr, [b] + list(args), kwargs, node)
+                    static = any((dotted_name(d) or "") == "staticmethod" for d in n.decorator_list)
+                    return I.call_package(fr, ([] if static else [b]) + list(args), kwargs, node)
         if name in ("info", "debug", "warning", "error", "critical", "exception", "setLevel"):
             return None
         I.event("opaque-call", node, (b.name, name, args, kwargs))
@@ -873,8 +928,40 @@ def builtin(I, name, args, kwargs, node, env):
         if isinstance(args[0], SetV):
             return SetV(args[0].items)
         return Unknown("set(%r)" % (args[0],))
+    if name == "iter":
+        x = args[0]
+        if isinstance(x, Tup):
+            return Tup([k for k, _ in x.items], "list") if x.kind == "dict" else x
+        return Unknown("iter(%r)" % (x,))
+    if name == "next":
+        x = args[0]
+        if isinstance(x, Tup) and x.kind != "dict" and not any(isinstance(i, I_.GenList) for i in x.items[:1]):
+            if x.items:
+                return x.items[0]
+            if len(args) > 1:
+                return args[1]
+            raise I_.AbstractRaise("StopIteration") if hasattr(I_, "AbstractRaise") else AnalysisError("next() of an empty iterator")
+        return Unknown("next(%r)" % (x,))
     if name == "dict":
-        return Tup([], "dict")
+        out = Tup([], "dict")
+        if args:
+            src = args[0]
+            if isinstance(src, Tup) and src.kind == "dict":
+                out.items.extend(src.items)
+            elif isinstance(src, Tup) and all(isinstance(p, Tup) and len(p.items) == 2 for p in src.items):
+                for p in src.items:
+                    k, v = p.items
+                    for i, (k0, _) in enumerate(out.items):
+                        if I_.key_equal(k0, k):
+                            out.items[i] = (k, v)
+                            break
+                    else:
+                        out.items.append((k, v))
+            else:
+                return Unknown("dict(%r)" % (src,))
+        for k, v in kwargs.items():
+            out.items.append((k, v))
+        return out
     return Unknown("builtin %s" % name)
 
 
@@ -926,7 +1013,38 @@ def _dtype_arg(x):
     return None
 
 
+MISSING = Opaque("dataclasses.MISSING")
+
+
+def dc_fields(I, args, kwargs, node):
+    """dataclasses.fields(cls): the schema read from the class body (name, default or MISSING)"""
+    c = args[0] if args else None
+    if isinstance(c, Opaque) and "__class__" in c.attrs:
+        mod, cls = c.attrs["__class__"]
+    elif isinstance(c, I_.FuncRef) and c.kind == "class":
+        mod, cls = c.module, c.node
+    else:
+        return Unknown("dataclasses.fields(%r)" % (c,))
+    out = []
+    for n in cls.body:
+        if isinstance(n, ast.AnnAssign) and isinstance(n.target, ast.Name):
+            d, fac = MISSING, MISSING
+            if n.value is not None:
+                if isinstance(n.value, ast.Call) and (dotted_name(n.value.func) or "").split(".")[-1] == "field":
+                    for kw in n.value.keywords:
+                        if kw.arg == "default":
+                            d = I.eval_in_module(mod, kw.value)
+                        if kw.arg == "default_factory":
+                            fac = I.eval_in_module(mod, kw.value)
+                else:
+                    d = I.eval_in_module(mod, n.value)
+            out.append(Opaque("dataclasses.Field", {"name": n.target.id, "default": d, "default_factory": fac}))
+    return Tup(out, "tuple")
+
+
 def external(I, dotted, args, kwargs, node):
+    if dotted == "dataclasses.fields":
+        return dc_fields(I, args, kwargs, node)
     h = EXT.get(dotted)
     if h is None:
         short = dotted.split(".")[-1]
@@ -1214,6 +1332,9 @@ def np_unique(I, args, kwargs, node):
 def np_sort(I, args, kwargs, node):
     x = args[0]
     if isinstance(x, Arr):
+        if x.ndim == 1 and isinstance(x.val, Expr) and kwargs.get("axis") is None and len(args) == 1:
+            # the sorted values are the array gathered through its own ascending order
+            return Arr(x.shape, alg.fn("gather", x.val, alg.fn("permidx", "asc", x.val)), x.dtype, {"sorted": True, "sorted_of": x})
         tag = "sort(%s)@%s:%s" % (x.name or "?", I.cur_mod.name, node.lineno)
         return Arr(x.shape, alg.fn("elem", alg.sym(tag)), x.dtype, {"sorted": True, "sorted_of": x})
     return Unknown("np.sort")
@@ -1285,8 +1406,21 @@ def _reverse(x):
         d = "desc" if p[0] == "asc" else "asc"
         return Arr(x.shape, alg.fn("permidx", d, p[1]), x.dtype, {"perm": (d, p[1])})
     if isinstance(x.val, Expr):
+        g = _single_atom(x.val)
+        if g is not None and g.kind == "fn" and g.name == "gather" and isinstance(g.args[1], Expr):
+            pa = _single_atom(g.args[1])
+            if pa is not None and pa.kind == "fn" and pa.name == "permidx":
+                d = "desc" if pa.args[0] == "asc" else "asc"
+                return Arr(x.shape, alg.fn("gather", g.args[0], alg.fn("permidx", d, pa.args[1])), x.dtype, {})
         return Arr(x.shape, alg.fn("reversed", x.val), x.dtype, {})
     return Unknown("reversed array")
+
+
+def np_roll(I, args, kwargs, node):
+    x, shift = args[0], _kw(args, kwargs, 1, "shift")
+    if isinstance(x, Arr) and x.ndim == 1 and isinstance(x.val, Expr) and isinstance(shift, Expr) and kwargs.get("axis") is None:
+        return Arr(x.shape, alg.fn("roll", x.val, shift), x.dtype, {"roll_of": (x, shift)})
+    return Unknown("np.roll")
 
 
 def np_searchsorted(I, args, kwargs, node):
@@ -1465,6 +1599,7 @@ EXT = {
     "numpy.meshgrid": np_meshgrid,
     "numpy.linspace": np_linspace,
     "numpy.arange": np_arange,
+    "numpy.roll": np_roll,
     "numpy.sqrt": unary(alg.sqrt),
     "numpy.exp": unary(alg.exp),
     "numpy.log": unary(alg.log),
